@@ -331,6 +331,12 @@ func (e *opEngine) verifyMsg(rm protoreflect.Message, mm *model.Snap, path strin
 		// unpopulated: defaults and read-only empty composites
 		v := rm.Get(fd)
 		switch {
+		case fd.IsExtension() && (fd.IsList() || fd.IsMap()):
+			// tolerance: an extension list emptied by Truncate stays stored (valid, empty);
+			// Has is false, which is what the contract requires
+			if fd.IsList() && v.List().Len() != 0 {
+				e.violation("unset-list-not-empty:"+kindCell(fd), map[string]any{"field": path + string(fd.FullName())})
+			}
 		case fd.IsMap():
 			if v.Map().Len() != 0 || v.Map().IsValid() {
 				e.violation("unset-map-not-empty-readonly:"+kindCell(fd), map[string]any{"field": path + string(fd.FullName())})
